@@ -54,7 +54,8 @@ class SignedCertificateTimestamp(ParsableBase, Serializable):
     )
     timestamp = attr.ib(validator=attr.validators.instance_of(datetime.datetime))
     extensions = attr.ib(
-        validator=attr.validators.deep_iterable(member_validator=attr.validators.instance_of(CtExtensions))
+        converter=CtExtensions,
+        validator=attr.validators.instance_of(CtExtensions)
     )
     signature_algorithm = attr.ib(validator=attr.validators.in_(TlsSignatureAndHashAlgorithm))
     signature = attr.ib(
